@@ -355,6 +355,9 @@ func leafID(v reflect.Value) uint64 {
 				return n
 			}
 		}
+		if n, err := strconv.ParseUint(s, 10, 64); err == nil {
+			return n // a number converted to a string by database/sql
+		}
 		var h uint64 = 7
 		for _, c := range []byte(s) {
 			h = h*31 + uint64(c)
